@@ -7,7 +7,7 @@
 (* (3x3: -1..1, 19 683 matrices) and whose steps pick a second matrix          *)
 (* ("pair"), or two vectors ("vec"): TLC enumerates the space completely.      *)
 (* Quick tier: the first matrix of the pair / vec laws is thinned to the       *)
-(* matrices whose weighted entry sum is divisible by 9 (all are kept for the   *)
+(* matrices whose weighted entry sum is divisible by 27 (all are kept for the   *)
 (* one-matrix laws); thorough tier: nothing is thinned.                        *)
 EXTENDS LinAlgebra, IOUtils
 
@@ -16,15 +16,8 @@ Tier == IF "C06_TIER" \in DOMAIN IOEnv THEN IOEnv.C06_TIER ELSE "quick"
 M3 == Mats(3, -1..1)
 M2 == IF Tier = "thorough" THEN Mats(2, -2..2) ELSE Mats(2, -1..1)
 Weight(M) == Sum(MkV(Len(M), LAMBDA i : Sum(MkV(Len(M), LAMBDA j : (3 * i + j) * M[i][j]))))
-Thin(M)   == Tier = "thorough" \/ Len(M) = 2 \/ Weight(M) % 9 = 0
+Thin(M)   == Tier = "thorough" \/ Len(M) = 2 \/ Weight(M) % 27 = 0
 
-\* second operands: the whole group, and matrices of every determinant -4..4 (singular, shears, reflections, ...)
-Partner3 == Rot \cup {Diag(<<1, 1, -1>>), Diag(<<-1, -1, -1>>), Diag(<<0, 1, 1>>), Diag(<<0, 0, 0>>),
-                      << <<1, 1, 0>>, <<0, 1, 1>>, <<0, 0, 1>> >>, << <<1, 0, 0>>, <<-1, 1, 0>>, <<1, -1, 1>> >>,
-                      << <<1, 1, 1>>, <<1, 1, 1>>, <<1, 1, 1>> >>, << <<1, -1, 0>>, <<1, 1, 0>>, <<0, 0, 1>> >>,
-                      << <<1, 1, 0>>, <<-1, 1, 1>>, <<0, -1, 1>> >>, << <<1, 1, 0>>, <<1, -1, 1>>, <<0, 1, 1>> >>,
-                      << <<1, 1, -1>>, <<-1, 1, 1>>, <<1, -1, 1>> >>, << <<-1, 1, 1>>, <<1, -1, 1>>, <<1, 1, -1>> >>,
-                      << <<0, 1, 1>>, <<1, 0, 1>>, <<1, 1, 0>> >>, << <<1, -1, 1>>, <<0, 0, 1>>, <<-1, -1, 0>> >>}
 Partner(n) == IF n = 3 THEN Partner3 ELSE M2
 VecPairs3 == {<<u, u>> : u \in Lattice3} \cup {<<u, Cross(u, <<1, -1, 1>>)>> : u \in Lattice3} \cup {<<<<1, 0, -1>>, u>> : u \in Lattice3}
 VecPairs2 == Vecs(2, -1..1) \X Vecs(2, -1..1)
@@ -67,4 +60,6 @@ ASSUME LawPredicates
 ASSUME \E M \in M3 : Mul(M, Transpose(Adj(M))) # SMul(Det(M), Ident(3))
 ASSUME \E M \in M3, N \in Partner3 : Det(MAdd(M, N)) # Det(M) + Det(N)
 ASSUME \E X \in Rot, Y \in Rot : Mul(X, Y) # Mul(Y, X)
+\* the second operands realise every determinant a matrix with entries in -1..1 can have
+ASSUME {Det(M) : M \in Partner3} = -4..4 /\ {Det(M) : M \in M3} = -4..4
 ===============================================================================
